@@ -26,9 +26,9 @@ type World struct {
 	SSAPkgs      map[string]*ssa.Package // by import path
 	Funcs        []*ssa.Function         // every source function of the repo packages, anonymous ones included
 	byName       map[string]*ssa.Function
-	Renamed      []string // functions recognised under a new name (normalize.go)
-	fnAlias  map[string]*ssa.Function // pinned name → function that took its place (method ↔ function)
-	fnPinned map[*ssa.Function]string
+	Renamed      []string                 // functions recognised under a new name (normalize.go)
+	fnAlias      map[string]*ssa.Function // pinned name → function that took its place (method ↔ function)
+	fnPinned     map[*ssa.Function]string
 	idxOfMemo    map[*ssa.Function]bool
 	acqMemo      map[*ssa.Function]map[*types.Var]string
 	cg           *CallGraph
